@@ -388,7 +388,13 @@ def _templates() -> st.SearchStrategy:
     nested2 = st.tuples(level2n, var_leaf, st.integers(0, 4), st.one_of(slot, small_cap)).map(lambda t: ["var", force_var(t[0], t[1], t[2]), t[3]])
     level3 = composite(st.one_of(level0, level1, level2, arrays(level2), arrays(level1)))
     level3n = composite(st.one_of(level0, level2n, nested2, nested1))
-    return st.one_of(level1, level2, level2n, level2n, level3, level3n, level3n).filter(lambda t: len(slots(t)) >= 1)
+    # every template has at least one capacity slot - by construction: a template that came out without one gets a variable-length member
+    # whose capacity is a slot.  (Not `.filter`: Hypothesis records every retried draw of a filter under a key that contains the repr of
+    # the strategy, which is megabytes long for this recursive one - a shard of the thorough tier ran out of memory that way.)
+    slot_leaf = st.tuples(st.sampled_from([["utf8"], ["byte"], ["uint", 8, "sat"], ["bool"]]), slot).map(lambda t: ["var", t[0], t[1]])
+    return st.tuples(st.one_of(level1, level2, level2n, level2n, level3, level3n, level3n), slot_leaf, st.integers(0, 4)).map(
+        lambda t: t[0] if len(slots(t[0])) >= 1 else force_var(t[0], t[1], t[2])
+    )
 
 
 def parts(ctx: Ctx) -> typing.List[Part]:
